@@ -21,9 +21,9 @@ def main():
         run_cases(chk, "vlib.formcheck", "run_form", rnames, spec, a.jobs)
         chk.sample(randforms.describe(rnames[0]))
         chk.extra["random_forms"] = nrand
-    if a.tier == "thorough":
-        spec2 = dict(spec, rel=REL_DEFAULT, options={})
-        run_cases(chk, "vlib.formcheck", "run_form", names, spec2, a.jobs)
+    # FFCx's DEFAULT table tolerances: all forms in the thorough tier, a slice in the quick tier
+    spec2 = dict(spec, rel=REL_DEFAULT, options={})
+    run_cases(chk, "vlib.formcheck", "run_form", names if a.tier == "thorough" else names[::4], spec2, a.jobs)
     chk.encoded("generated tabulate_tensor_* C text of every exterior_facet / interior_facet / vertex integral")
     chk.bounds = {"programs": len(names), "entities": "every local facet/vertex index (every (+,-) pair in the thorough tier; a covering subset of pairs in quick)",
                   "permutation codes": "(0,0) (all other codes: C03)", "inputs": "all w, c, coordinate_dofs of both cells symbolic"}
